@@ -1271,6 +1271,7 @@ Section Main.
     unfold accept in H.
     destruct (String.eqb (tag doc) RESPONSE) eqn:Etag; [|discriminate]. apply String.eqb_eq in Etag. cbn [negb] in H.
     destruct (content_ok o); [|discriminate]. cbn [negb] in H.
+    destruct (count_ok doc); [|discriminate]. cbn [negb] in H.
     assert (Gdoc : guarded Eg K doc)
       by (intro Hs; destruct Hguard as [G|((G & _ & _) & Hst)]; [now left | right; split; [now apply G | exact Hst]]).
     assert (Gplain : forall a, In a (many ASSERTION doc) -> guarded Eg K a)
@@ -1421,6 +1422,234 @@ Section Main.
   Qed.
 End Main.
 
+(* ================================================================== ONE covered element accounts for the report *)
+(* (round 5) "exactly those of AN element covered by a valid signature".  When the Response itself is signed it is
+   that element.  When it is not, every assertion is verified on its own and the report mixes them (name_id of the
+   last, .assertion / session of the first, attributes merged): the property then needs that exactly one assertion
+   feeds the report.  parse_assertion's count test lets the Response through when it has exactly one plain Assertion
+   child OR exactly one EncryptedAssertion child: that is finding C02-F4 (mix_guard is the excluded class). *)
+Definition mix_guard (doc : tree) (ddoc : option tree) : Prop :=
+  signed doc \/ exists a, reported_assertions doc ddoc = [a].
+
+Lemma spec_one_b_iff c cv rep : spec_one_b c cv rep = true <-> spec_one c cv rep.
+Proof.
+  unfold spec_one_b, spec_one. rewrite existsb_exists.
+  split; intros (ek & Hin & H); exists ek; (split; [assumption|]); now apply spec_b_iff.
+Qed.
+
+Lemma covered_self' c (cv : cov) e k : In (e, k) cv -> by_asserting_party c (e, k) = true -> In e (covered_elements c cv).
+Proof.
+  intros Hin Hby. unfold covered_elements. apply in_flat_map. exists (e, k). split; [assumption|].
+  rewrite Hby. apply subtrees_self.
+Qed.
+
+(* everything that is reported lies below the signed Response *)
+Lemma single_from_root c doc j s k proc reps :
+  tag doc = RESPONSE -> nth_error (kids doc) j = Some s -> tag s = SIGNATURE ->
+  by_asserting_party c (remove_at doc [j], k) = true ->
+  (forall a, In a proc -> tag a = ASSERTION /\ exists k0, In k0 (kids doc) /\ tag k0 <> SIGNATURE /\ In a (subtrees k0)) ->
+  (forall a, In a reps -> In a proc) ->
+  spec c [(remove_at doc [j], k)] (report c doc proc reps).
+Proof.
+  intros Etag Hn Hs Hby Hproc Hreps.
+  assert (Hall : forall a, In a proc -> asserted c [(remove_at doc [j], k)] a).
+  { intros a Ha. destruct (Hproc a Ha) as (Hta & k0 & Hk0 & Hne & Hsub).
+    left. apply covered_assertions_In. split; [|assumption].
+    unfold covered_elements. apply in_flat_map. exists (remove_at doc [j], k). split; [now left|].
+    rewrite Hby. cbn [fst]. eapply subtrees_kid; [|exact Hsub]. rewrite kids_remove_one.
+    eapply remove_nth_In; eauto. intro E. subst. contradiction. }
+  apply spec_split. split.
+  - apply report_covered; [exact Hall | intros a Ha; apply Hall; now apply Hreps].
+  - unfold spec_issuer. cbn [report r_issuer].
+    destruct (is_empty (issuer_text doc)) eqn:Eie; [left; now apply is_empty_iff|]. right.
+    unfold issuer_text in *. destruct (single ISSUER doc) as [n|] eqn:En; [|discriminate].
+    unfold covered_issuers. apply in_flat_map. exists (remove_at doc [j]). split.
+    + apply (covered_self' c _ _ k); [now left | assumption].
+    + rewrite tag_remove_one, Etag.
+      change (String.eqb RESPONSE ASSERTION || String.eqb RESPONSE RESPONSE) with true. cbv iota.
+      apply in_map_iff. exists n. split; [reflexivity|].
+      erewrite many_remove; eauto; [now apply single_In | apply sig_ne; [reflexivity | assumption]].
+Qed.
+
+(* the one assertion that was processed, verified on its own *)
+Lemma single_from_assertion c doc a j s k reps :
+  tag a = ASSERTION -> nth_error (kids a) j = Some s -> tag s = SIGNATURE ->
+  by_asserting_party c (remove_at a [j], k) = true ->
+  (forall x, In x reps -> x = a) ->
+  (is_empty (issuer_text doc) = false -> issuer_text a = issuer_text doc) ->
+  spec c [(remove_at a [j], k)] (report c doc [a] reps).
+Proof.
+  intros Hta Hn Hs Hby Hreps Hiss.
+  assert (Ha : asserted c [(remove_at a [j], k)] a).
+  { right. exists j, s. repeat split; try assumption.
+    apply covered_assertions_In. split; [eapply covered_self'; [now left | assumption] | now rewrite tag_remove_one]. }
+  apply spec_split. split.
+  - apply report_covered; [intros x [<-|[]]; exact Ha | intros x Hx; rewrite (Hreps x Hx); exact Ha].
+  - unfold spec_issuer. cbn [report r_issuer].
+    destruct (is_empty (issuer_text doc)) eqn:Eie; [left; now apply is_empty_iff|]. right.
+    rewrite <- (Hiss eq_refl). apply asserted_issuer; try assumption. now rewrite (Hiss eq_refl).
+Qed.
+
+Section Single.
+  Variable dig_ok : string -> string -> tree -> bool.
+  Variable sig_ok : nat -> string -> tree -> bool.
+
+  Lemma accept_count Eg K c o doc ddoc r : accept dig_ok sig_ok Eg K c o doc ddoc = Some r -> count_ok doc = true.
+  Proof.
+    unfold accept. destruct (String.eqb (tag doc) RESPONSE); [|discriminate]. cbn [negb].
+    destruct (content_ok o); [|discriminate]. cbn [negb].
+    destruct (count_ok doc); [reflexivity | discriminate].
+  Qed.
+
+  Theorem accept_single Eg K c o doc ddoc rep ds :
+    sound_knobs K -> sig_required c ->
+    defence Eg K doc ddoc ->
+    (k_issuer K = true \/ issuer_guard doc ddoc) ->
+    (k_lax K = true \/ engine_guard Eg doc ddoc) ->
+    oracle_sane o doc ddoc -> dec_sound doc ddoc ->
+    mix_guard doc ddoc ->
+    accept dig_ok sig_ok Eg K c o doc ddoc = Some (rep, ds) ->
+    spec_one c (cov_of doc ddoc ds) rep.
+  Proof.
+    intros HK Hreq Hguard Hig Heng (Os1 & Os2 & Os3) Hdec Hmix H.
+    unfold accept in H.
+    destruct (String.eqb (tag doc) RESPONSE) eqn:Etag; [|discriminate]. apply String.eqb_eq in Etag. cbn [negb] in H.
+    destruct (content_ok o); [|discriminate]. cbn [negb] in H.
+    destruct (count_ok doc); [|discriminate]. cbn [negb] in H.
+    assert (Gdoc : guarded Eg K doc)
+      by (intro Hs; destruct Hguard as [G|((G & _ & _) & Hst)]; [now left | right; split; [now apply G | exact Hst]]).
+    assert (Gplain : forall a, In a (many ASSERTION doc) -> guarded Eg K a)
+      by (intros a Ha Hs; destruct Hguard as [G|((_ & G & _) & Hst)]; [now left | right; split; [now apply G | exact Hst]]).
+    assert (Genc : forall dd, ddoc = Some dd -> forall a, In a (decrypted dd) -> guarded Eg K a)
+      by (intros dd Hdd a Ha Hs; destruct Hguard as [G|((_ & _ & G) & Hst)]; [now left | right; split; [eapply G; eauto | exact Hst]]).
+    assert (BR : lenient Eg = true -> k_lax K = true \/ no_bare_for R_NAME doc)
+      by (intro Hl; destruct Heng as [Hx|Hx]; [now left | right; apply no_bare_R; exact (proj1 (Hx Hl))]).
+    assert (BA : lenient Eg = true -> k_lax K = true \/ no_bare_for A_NAME doc)
+      by (intro Hl; destruct Heng as [Hx|Hx]; [now left | right; apply no_bare_A; exact (proj1 (Hx Hl))]).
+    assert (BD : forall dd, ddoc = Some dd -> lenient Eg = true -> k_lax K = true \/ no_bare_for A_NAME dd)
+      by (intros dd Hdd Hl; destruct Heng as [Hx|Hx]; [now left | right; apply no_bare_A; exact (proj2 (Hx Hl) dd Hdd)]).
+    change (match single SIGNATURE doc with
+            | Some _ => match check_signature dig_ok sig_ok Eg K c doc doc R_NAME "" (schema_root o) with
+                        | Some res => Some (true, mkdigs false res)
+                        | None => None
+                        end
+            | None => if want_resp c then None else Some (false, [])
+            end) with (response_check dig_ok sig_ok Eg K c o doc) in H.
+    destruct (response_check dig_ok sig_ok Eg K c o doc) as [[resp_signed d0]|] eqn:ER; [|discriminate].
+    destruct (response_step dig_ok sig_ok Eg K c o doc ddoc resp_signed d0 HK Etag Gdoc BR Os1 ER) as [Hroot Hd0].
+    assert (Hopq : opaque doc = false) by (eapply not_opaque_tag; [exact Etag | reflexivity]).
+    destruct (check_assertions dig_ok sig_ok Eg K c false doc doc "" (many ASSERTION doc) (schema_as o)) as [[all1 d1]|] eqn:E1; [|discriminate].
+    destruct (check_assertions_covered dig_ok sig_ok Eg K c false doc doc doc ddoc HK eq_refl BA _ _ _ _
+                Gplain (fun a Ha => sub_kid doc a Hopq (proj1 (proj1 (many_In _ _ _) Ha)))
+                (fun a Ha => proj2 (proj1 (many_In _ _ _) Ha)) Os2 E1) as (P1 & P2 & P3 & P4).
+    (* the Response is not signed and one assertion went through _assertion: its issuer is the envelope's *)
+    assert (Hieq : ~ signed doc -> forall a, reported_assertions doc ddoc = [a] -> issuer_check K doc a = true ->
+                   is_empty (issuer_text doc) = false -> issuer_text a = issuer_text doc).
+    { intros Hns a Hone Hic Hne. destruct Hig as [Hk|[Hs|(a' & Ha' & Hia)]].
+      - unfold issuer_check in Hic. rewrite Hk in Hic. cbn [negb orb] in Hic.
+        apply andb_true_iff in Hic as [_ Hic]. rewrite Hne in Hic. cbn [orb] in Hic. apply String.eqb_eq in Hic. now symmetry.
+      - contradiction.
+      - rewrite Hone in Ha'. destruct Ha' as [<-|[]]. assumption. }
+    destruct (find_encrypt_data doc) eqn:Efe.
+    - (* ---------------- the Response carries ciphertext *)
+      destruct ddoc as [dd|] eqn:Edd; [|discriminate].
+      destruct (Hdec dd eq_refl) as (Dec0 & Dec1 & Dec2).
+      destruct (check_assertions dig_ok sig_ok Eg K c true doc dd "" (decrypted dd) (schema_enc o)) as [[all2 d2]|] eqn:E2; [|discriminate].
+      destruct (check_assertions_covered dig_ok sig_ok Eg K c true doc dd doc (Some dd) HK eq_refl (BD dd eq_refl) _ _ _ _
+                  (Genc dd eq_refl) (fun a Ha => proj2 (decrypted_In dd a Dec0 Ha))
+                  (fun a Ha => proj1 (decrypted_In dd a Dec0 Ha)) (Os3 dd eq_refl) E2) as (Q1 & Q2 & Q3 & Q4).
+      destruct (want_either c && negb resp_signed && negb (all1 && all2)) eqn:Eeither; [discriminate|].
+      destruct (many ASSERTION doc ++ decrypted dd ++ many ASSERTION dd) as [|x0 xs] eqn:Enon; [discriminate|].
+      inversion H; subst rep ds. clear H.
+      destruct resp_signed eqn:Ers.
+      + destruct (Hroot eq_refl) as (j & s & k & Hn & Hs & Hcov & Hby & _).
+        exists (remove_at doc [j], k). split; [rewrite cov_of_app, Hcov; now left|].
+        apply (single_from_root c doc j s k); try assumption.
+        * intros a Ha. apply in_app_or in Ha as [Ha|Ha].
+          -- apply many_In in Ha as [Hk Ht]. split; [assumption|]. exists a.
+             repeat split; [assumption | rewrite Ht; discriminate | apply subtrees_self].
+          -- split; [exact (proj1 (decrypted_In dd a Dec0 Ha))|].
+             destruct (Dec1 a Ha) as (k0 & Hk0 & Hne & Hsub). now exists k0.
+        * intros a Ha. apply in_app_or in Ha as [Ha|Ha]; apply in_or_app; [now right | left; now apply Dec2].
+      + destruct (Hd0 eq_refl) as (-> & Hwr & Hns).
+        destruct Hmix as [Hsd|(a & Hone)]; [contradiction|].
+        assert (Hone' := Hone). unfold reported_assertions in Hone'. rewrite Efe in Hone'.
+        assert (Hsig : all1 && all2 = true \/ want_assert c = true).
+        { destruct Hreq as [Hr|[Hr|Hr]]; [congruence | now right | left].
+          rewrite Hr in Eeither. cbn in Eeither. now destruct (all1 && all2). }
+        assert (S1 : all1 = true \/ want_assert c = true)
+          by (destruct Hsig as [Hs|Hs]; [apply andb_true_iff in Hs; tauto | tauto]).
+        assert (S2 : all2 = true \/ want_assert c = true)
+          by (destruct Hsig as [Hs|Hs]; [apply andb_true_iff in Hs; tauto | tauto]).
+        assert (Ha : In a (many ASSERTION doc ++ decrypted dd)) by (rewrite Hone'; now left).
+        assert (Hex : exists j s k, nth_error (kids a) j = Some s /\ tag s = SIGNATURE
+                                    /\ In (remove_at a [j], k) (cov_of doc (Some dd) ([] ++ d1 ++ d2))
+                                    /\ by_asserting_party c (remove_at a [j], k) = true
+                                    /\ tag a = ASSERTION /\ issuer_check K doc a = true).
+        { cbn [app]. apply in_app_or in Ha as [Ha|Ha].
+          - destruct (P1 a Ha (P2 S1 a Ha)) as (j & s & k & Hn & Hs & Hin & Hby & _).
+            exists j, s, k. repeat split; try assumption.
+            + rewrite cov_of_app. apply in_or_app. now left.
+            + now apply many_In in Ha.
+            + now apply P4.
+          - destruct (Q1 a Ha (Q2 S2 a Ha)) as (j & s & k & Hn & Hs & Hin & Hby & _).
+            exists j, s, k. repeat split; try assumption.
+            + rewrite cov_of_app. apply in_or_app. now right.
+            + exact (proj1 (decrypted_In dd a Dec0 Ha)).
+            + now apply Q4. }
+        destruct Hex as (j & s & k & Hn & Hs & Hin & Hby & Hta & Hic).
+        exists (remove_at a [j], k). split; [assumption|].
+        rewrite Hone'. apply (single_from_assertion c doc a j s k); try assumption.
+        * intros x Hx.
+          assert (Hx' : In x (many ASSERTION doc ++ decrypted dd)).
+          { apply in_app_or in Hx as [Hx|Hx]; apply in_or_app; [now right | left; now apply Dec2]. }
+          rewrite Hone' in Hx'. destruct Hx' as [<-|[]]. reflexivity.
+        * intro Hne. now apply (Hieq Hns a Hone Hic).
+    - (* ---------------- no ciphertext *)
+      destruct (want_either c && negb resp_signed && negb all1) eqn:Eeither; [discriminate|].
+      destruct (many ASSERTION doc) as [|x0 xs] eqn:Enon; [discriminate|]. rewrite <- Enon in *.
+      inversion H; subst rep ds. clear H.
+      destruct resp_signed eqn:Ers.
+      + destruct (Hroot eq_refl) as (j & s & k & Hn & Hs & Hcov & Hby & _).
+        exists (remove_at doc [j], k). split; [rewrite cov_of_app, Hcov; now left|].
+        apply (single_from_root c doc j s k); try assumption; [|auto].
+        intros a Ha. apply many_In in Ha as [Hk Ht]. split; [assumption|]. exists a.
+        repeat split; [assumption | rewrite Ht; discriminate | apply subtrees_self].
+      + destruct (Hd0 eq_refl) as (-> & Hwr & Hns).
+        destruct Hmix as [Hsd|(a & Hone)]; [contradiction|].
+        assert (Hone' := Hone). unfold reported_assertions in Hone'. rewrite Efe, app_nil_r in Hone'.
+        assert (S1 : all1 = true \/ want_assert c = true).
+        { destruct Hreq as [Hr|[Hr|Hr]]; [congruence | now right | left].
+          rewrite Hr in Eeither. cbn in Eeither. now destruct all1. }
+        assert (Ha : In a (many ASSERTION doc)) by (rewrite Hone'; now left).
+        destruct (P1 a Ha (P2 S1 a Ha)) as (j & s & k & Hn & Hs & Hin & Hby & _).
+        exists (remove_at a [j], k). split; [exact Hin|].
+        rewrite Hone'. apply (single_from_assertion c doc a j s k); try assumption.
+        * now apply many_In in Ha.
+        * intros x Hx. destruct Hx as [<-|[]]. reflexivity.
+        * intro Hne. apply (Hieq Hns a Hone); [now apply P4 | assumption].
+  Qed.
+
+  (* no EncryptedAssertion child at all: the count test leaves exactly one assertion, no guard is needed *)
+  Corollary accept_single_plain Eg K c o doc ddoc rep ds :
+    sound_knobs K -> sig_required c ->
+    defence Eg K doc ddoc ->
+    (k_issuer K = true \/ issuer_guard doc ddoc) ->
+    (k_lax K = true \/ engine_guard Eg doc ddoc) ->
+    oracle_sane o doc ddoc -> dec_sound doc ddoc ->
+    many ENCASSERTION doc = [] -> find_encrypt_data doc = false ->
+    accept dig_ok sig_ok Eg K c o doc ddoc = Some (rep, ds) ->
+    spec_one c (cov_of doc ddoc ds) rep.
+  Proof.
+    intros HK Hreq Hg Hi He Ho Hd Hnoenc Hfe H.
+    eapply accept_single; eauto.
+    right. apply accept_count in H. unfold count_ok in H. rewrite Hnoenc in H. cbn [length Nat.eqb orb] in H.
+    rewrite orb_false_r in H. apply Nat.eqb_eq in H.
+    unfold reported_assertions. rewrite Hfe, app_nil_r.
+    destruct (many ASSERTION doc) as [|a [|b r]]; try discriminate. now exists a.
+  Qed.
+End Single.
+
 (* ================================================================== ideal cryptography: wrapping-freedom *)
 Section Ideal.
   Variable dig_ok : string -> string -> tree -> bool.
@@ -1543,6 +1772,34 @@ Module Ex.
     match r with Some (rep, ds) => negb (spec_but_issuer_b c (cov_of d None ds) rep) | None => false end.
   Definition names (r : option (reported * list dig)) : option (option (string * option string)) :=
     match r with Some (rep, _) => Some (r_name_id rep) | None => None end.
+
+  (* ---- C02-F4: two genuinely signed assertions in one unsigned envelope ---- *)
+  Definition stmt (six : string) : tree := Node AUTHNSTMT [("SessionIndex", six)] "" [].
+  Definition genuineA2 : tree := assertion "A" IDP [] "alice" "alice@example.org" [stmt "s-alice"].
+  Definition genuineB2 : tree := assertion "B" IDP [] "bob" "bob@example.org" [stmt "s-bob"].
+  Definition A2_signed : tree := assertion "A" IDP [sig "#A" "dA" "sA"] "alice" "alice@example.org" [stmt "s-alice"].
+  Definition B2_signed : tree := assertion "B" IDP [sig "#B" "dB" "sB"] "bob" "bob@example.org" [stmt "s-bob"].
+  Definition dig_ex2 (a dv : string) (t : tree) : bool :=
+    (String.eqb dv "dA" && tree_eqb t genuineA2) || (String.eqb dv "dB" && tree_eqb t genuineB2).
+  Definition sig_ex2 (k : nat) (sv : string) (si : tree) : bool :=
+    Nat.eqb k 1 && ((String.eqb sv "sA" && tree_eqb si (signed_info "#A" "dA"))
+                    || (String.eqb sv "sB" && tree_eqb si (signed_info "#B" "dB"))).
+  (* the splice as the count test refuses it ... *)
+  Definition doc_two : tree := response IDP [A2_signed; B2_signed].
+  (* ... and as it lets it through: an EMPTY EncryptedAssertion element makes "exactly one encrypted assertion" true *)
+  Definition doc_mix : tree := response IDP [A2_signed; B2_signed; el ENCASSERTION []].
+  (* one plain, one encrypted (ciphertext abstracted: EncryptedData[n] holding the plaintext) *)
+  Definition doc_mix_enc : tree :=
+    response IDP [A2_signed; el ENCASSERTION [Node ENCDATA [("n", "$e")] "" [B2_signed]]].
+  Definition ddoc_mix_enc : tree := response IDP [A2_signed; el ENCASSERTION [B2_signed]].
+  Definition ok3 : oracle := {| content_ok := true; schema_root := true; schema_as := [true; true]; schema_enc := [true] |}.
+  Definition run2 (c : cfg) (d : tree) (dd : option tree) := accept dig_ex2 sig_ex2 xmlsec1 as_coded c ok3 d dd.
+  Definition mixed (c : cfg) (d : tree) (dd : option tree) : option (bool * bool * option string * option string) :=
+    match run2 c d dd with
+    | Some (rep, ds) => Some (spec_b c (cov_of d dd ds) rep, spec_one_b c (cov_of d dd ds) rep,
+                              match r_name_id rep with Some (n, _) => Some n | None => None end, r_session_index rep)
+    | None => None
+    end.
 End Ex.
 
 Lemma ex_crypto_ideal :
@@ -1769,6 +2026,48 @@ Proof.
     specialize (G1 [2; 0] Ex.bare_holder eq_refl (or_introl eq_refl)). vm_compute in G1. discriminate.
 Qed.
 
+(* ================================================================== C02-F4: the report mixes two signed assertions *)
+Lemma not_spec_one_of_b c cv rep : spec_one_b c cv rep = false -> ~ spec_one c cv rep.
+Proof. intros H S. apply spec_one_b_iff in S. congruence. Qed.
+
+(* the code as it is accepts two genuinely signed assertions in an unsigned envelope as soon as the Response also has
+   exactly one EncryptedAssertion child (an empty element will do; a real ciphertext too) and reports bob (the last
+   assertion's subject) with alice's session (the first one's): every field is signed content (spec holds), but no
+   single covered element carries that combination (spec_one fails).  Without the extra child the splice is refused. *)
+Lemma f4_refuted :
+  Ex.mixed Ex.cfgA Ex.doc_mix None = Some (true, false, Some "bob", Some "s-alice")
+  /\ Ex.mixed Ex.cfgA Ex.doc_mix_enc (Some Ex.ddoc_mix_enc) = Some (true, false, Some "bob", Some "s-bob")
+  /\ (exists rep ds, Ex.run2 Ex.cfgA Ex.doc_mix None = Some (rep, ds)
+                     /\ oracle_sane Ex.ok3 Ex.doc_mix None /\ dec_sound Ex.doc_mix None /\ sig_required Ex.cfgA
+                     /\ spec Ex.cfgA (cov_of Ex.doc_mix None ds) rep
+                     /\ ~ spec_one Ex.cfgA (cov_of Ex.doc_mix None ds) rep)
+  /\ ~ mix_guard Ex.doc_mix None /\ ~ mix_guard Ex.doc_mix_enc (Some Ex.ddoc_mix_enc)
+  /\ Ex.run2 Ex.cfgA Ex.doc_two None = None.
+Proof.
+  split; [vm_compute; reflexivity|]. split; [vm_compute; reflexivity|]. split; [|split; [|split]].
+  - destruct (Ex.run2 Ex.cfgA Ex.doc_mix None) as [[rep ds]|] eqn:E; [|vm_compute in E; discriminate].
+    exists rep, ds. split; [reflexivity|].
+    assert (Hm : Ex.mixed Ex.cfgA Ex.doc_mix None = Some (true, false, Some "bob", Some "s-alice")) by (vm_compute; reflexivity).
+    unfold Ex.mixed in Hm. rewrite E in Hm. inversion Hm as [[H1 H2 H3 H4]].
+    split; [|split; [|split; [right; left; reflexivity|split]]].
+    + split; [intros _; vm_compute; discriminate | split; [vm_compute; repeat split; discriminate | intros dd H; discriminate]].
+    + intros dd H. discriminate.
+    + now apply spec_b_iff.
+    + now apply not_spec_one_of_b.
+  - intros [H|(a & H)]; [apply H; vm_compute; reflexivity | vm_compute in H; discriminate].
+  - intros [H|(a & H)]; [apply H; vm_compute; reflexivity | vm_compute in H; discriminate].
+  - vm_compute. reflexivity.
+Qed.
+
+(* the hypotheses of the one-element theorem are satisfiable: the genuine message is accepted, one element covers it *)
+Example single_nonvacuous :
+  mix_guard Ex.doc_genuine None
+  /\ match Ex.run as_coded Ex.cfgA Ex.doc_genuine with
+     | Some (rep, ds) => spec_one_b Ex.cfgA (cov_of Ex.doc_genuine None ds) rep
+     | None => false
+     end = true.
+Proof. split; [right; exists Ex.A_signed; vm_compute; reflexivity | vm_compute; reflexivity]. Qed.
+
 (* ================================================================== the statements of Property.v *)
 Lemma knobs_as_coded : sound_knobs as_coded.
 Proof. repeat split. Qed.
@@ -1865,4 +2164,30 @@ Proof.
   intros E dig_ok sig_ok c o doc ddoc rep ds Hs Hr Hg Hi Ho Hd H.
   exact (accept_covered dig_ok sig_ok E knobs_v0 c o doc ddoc rep ds knobs_v0_sound Hr (or_intror (conj Hg Hs)) (or_intror Hi)
            (or_intror (engine_guard_strict E doc ddoc Hs)) Ho Hd H).
+Qed.
+
+(* (round 5) ONE covered element accounts for the whole report - when the Response itself is signed, or exactly one
+   assertion feeds the report (mix_guard; its complement is finding C02-F4) *)
+Lemma single_as_coded :
+  forall E dig_ok sig_ok c o doc ddoc rep ds,
+    sig_required c -> oracle_sane o doc ddoc -> dec_sound doc ddoc -> mix_guard doc ddoc ->
+    accept dig_ok sig_ok E as_coded c o doc ddoc = Some (rep, ds) ->
+    spec_one c (cov_of doc ddoc ds) rep.
+Proof.
+  intros E dig_ok sig_ok c o doc ddoc rep ds Hr Ho Hd Hm H.
+  exact (accept_single dig_ok sig_ok E as_coded c o doc ddoc rep ds knobs_as_coded Hr (defence_as_coded E doc ddoc)
+           (or_introl eq_refl) (or_introl eq_refl) Ho Hd Hm H).
+Qed.
+
+(* a Response without EncryptedAssertion children: the count test of parse_assertion leaves exactly one assertion *)
+Lemma single_plain_as_coded :
+  forall E dig_ok sig_ok c o doc ddoc rep ds,
+    sig_required c -> oracle_sane o doc ddoc -> dec_sound doc ddoc ->
+    many ENCASSERTION doc = [] -> find_encrypt_data doc = false ->
+    accept dig_ok sig_ok E as_coded c o doc ddoc = Some (rep, ds) ->
+    spec_one c (cov_of doc ddoc ds) rep.
+Proof.
+  intros E dig_ok sig_ok c o doc ddoc rep ds Hr Ho Hd Hn Hf H.
+  exact (accept_single_plain dig_ok sig_ok E as_coded c o doc ddoc rep ds knobs_as_coded Hr (defence_as_coded E doc ddoc)
+           (or_introl eq_refl) (or_introl eq_refl) Ho Hd Hn Hf H).
 Qed.
